@@ -63,6 +63,15 @@ func renameInputInCalls(callable syntax.Callable,
 				OldParam: oldName,
 				NewParam: newName,
 			})
+			if b := wildcardBindingFor(call.Bindings, oldName); b != nil {
+				// The wildcard no longer matches the renamed parameter.
+				edits = append(edits, materializeBinding{
+					Pipeline: pipe,
+					Call:     call,
+					Id:       newName,
+					Exp:      b.Exp,
+				})
+			}
 		}
 	}
 	return edits
@@ -106,6 +115,15 @@ func updateSelfRefsFromBinding(edits editSet, binding *syntax.BindStm,
 	// Must edit the original AST here or else other edits will be operating on
 	// the incorrect expression.
 	binding.Exp = exp
+	if !isMods && fromWholeWildcard(pipe, call, binding) {
+		// The wildcard no longer matches the renamed input.
+		return append(edits, materializeBinding{
+			Pipeline: pipe,
+			Call:     call,
+			Id:       binding.Id,
+			Exp:      exp,
+		})
+	}
 	return append(edits, &editBinding{
 		Pipeline: pipe,
 		Call:     call,
